@@ -93,6 +93,15 @@ func VerifHarness_ReadBack() {
 		verifAssert(pos[0].Line == line && pos[0].FirstColumn == col && pos[0].LastColumn == col, "empty value: position is the node's own place")
 		return
 	}
+	// a value the source does not spell at all (no character of it is found) is reported at the node's own place,
+	// like an empty value: that single place is the documented fallback, not a read-back claim. It is recognised by
+	// not spelling the first value character (past the end of the line, or a different character).
+	if len(pos) == 1 && pos[0].Line == line && pos[0].FirstColumn == col && pos[0].LastColumn == col {
+		if col > lens[line-1] || lines[line-1][col-1] != val[0] {
+			verifReach("fallback")
+			return
+		}
+	}
 	if len(pos) > 0 {
 		verifReach("matched")
 	}
